@@ -880,7 +880,8 @@ inline uint StringDictionaryRPHTFC::decodeSymbol(uint *symbol, uchar *ptr,
 
 inline uint StringDictionaryRPHTFC::decodeString(uchar *str, uint *strLen,
                                                  uchar **ptr, uint *offset) {
-  uchar *vb = new uchar[maxlength];
+  // (a rule can expand to a whole internal string: VByte + suffix + terminator)
+  uchar *vb = new uchar[maxlength + 6];
   uint read = 0;
 
   uint rule;
